@@ -530,6 +530,54 @@ def rule_r9(repo, run, helpers):
     run.floor(R, "copy-and-free helpers", n, 2)
 
 
+def rule_r10(repo, run, helpers, table):
+    R = run.rule("C06.R10", "each release action is looked up by the exact C++ type it deletes; arrays whose unfilled slots a "
+                            "destructor may free start zeroed; results created by the wrapper are owned by the caller")
+    wc = repo.module("wrapc")
+    ci = wc.func("Wrapc.compute_idtor")
+    calls = [c for c in ast.walk(ci) if isinstance(c, ast.Call) and (pyflow.call_name(c) or "") == "self.add_capsule_code"]
+    ok = False
+    why = "add_capsule_code call of compute_idtor not found"
+    if len(calls) == 1 and calls[0].args:
+        key = calls[0].args[0]
+        # the registration key must be the same expression that is formatted into the delete statement
+        fm = [k.value for c in ast.walk(ci) if isinstance(c, ast.Call) and isinstance(c.func, ast.Attribute) and c.func.attr == "format"
+              for k in c.keywords if k.arg == "cxx_type"]
+        ok = bool(fm) and all(ast.unparse(x) == ast.unparse(key) for x in fm)
+        why = "the class destructor is registered under `%s` but its code deletes a `%s`: two classes with the same %s share " \
+              "one release action (delete through the wrong type)" % (ast.unparse(key), [ast.unparse(x) for x in fm][:1], ast.unparse(key))
+    run.check(R, "wrapc.Wrapc.compute_idtor:key", ok, why, wc.loc(ci))
+    # pointer arrays released element-wise by a FREE_ function
+    n = 0
+    for key, h in sorted(helpers.c.items()):
+        for k, text in tables.helper_sources(h):
+            code = templ.strip_c_comments("\n".join(templ.strip_layout(l) for l in text.split("\n")))
+            for m_ in re.finditer(r"char\s*\*\*\s*(\w+)\s*=\s*[^;]*?\b(calloc|malloc)\s*\(", code):
+                var, fn = m_.group(1), m_.group(2)
+                if not re.search(r"PyCapsule_New\s*\(\s*%s\s*," % var, code):
+                    continue
+                n += 1
+                run.check(R, "whelpers.CHelpers[%s].%s:%s zeroed" % (key, k, var), fn == "calloc",
+                          "the array `%s` is handed to a capsule whose destructor frees every slot, but it is allocated with "
+                          "malloc: after a conversion error the unfilled slots hold garbage and are passed to free()" % var,
+                          "shroud/whelpers.py", sample=dict(helper=key, allocator=fn))
+    run.floor(R, "pointer arrays owned by a capsule", n, 1)
+    # entries that create the result object (new / copy) give it to the caller
+    ne = 0
+    for lang in ("c++",):
+        for name, e in sorted(table.resolve_all(lang).items()):
+            if not name.startswith("c_") or "result" not in name.split("_"):
+                continue
+            pre = "\n".join(e.lines("pre_call"))
+            if re.search(r"=\s*\t?\s*new\b", pre):
+                ne += 1
+                run.check(R, "statements.fc_statements[%s]:owner" % name, str(e.get("owner") or "") == "caller" or bool(e.get("destructor_name")),
+                          "the entry allocates the result with `new` but its owner is %r and it names no destructor: idtor stays 0 and the memory "
+                          "destructor never deletes the object the wrapper created" % (e.get("owner"),), table.loc(e.raw),
+                          sample=dict(entry=name, owner=str(e.get("owner"))))
+    run.floor(R, "result entries that allocate", ne, 2)
+
+
 def run(repo, run, tier):
     tables.check_model_assumptions(repo)
     table = tables.StatementTable(repo, "statements", "fc_statements")
@@ -546,7 +594,7 @@ def run(repo, run, tier):
     # only the memory-safety part: text-conversion conventions (blank scan, blank fill, NUL placement)
     # belong to C10 and do not affect which memory is touched
     def safety(c):
-        return not c.endswith((":blank-scan", ":blank-fill", ":no-NUL-in-dest"))
+        return not c.endswith((":blank-scan", ":blank-fill", ":no-NUL-in-dest", ":element-pointer"))
     for v in sub.violations:
         if safety(v["construct"]):
             run.fail(R5, v["construct"].replace("C10", "C06"), v["message"], v["loc"])
@@ -571,3 +619,4 @@ def run(repo, run, tier):
     rule_r7(repo, run)
     rule_r8(repo, run)
     rule_r9(repo, run, helpers)
+    rule_r10(repo, run, helpers, table)
